@@ -208,6 +208,9 @@ class EditRun:
                 chain.append(node)
             tgt = chain[-1]
             field = op.get('field')
+            if any(isinstance(w, (ast.With, ast.AsyncWith)) and len(w.items) == 1 and isinstance(w.items[0].context_expr, ast.Tuple)
+                   and w.items[0].optional_vars is None for w in ast.walk(tgt)):
+                flags.add('contains_with_single_tuple_item')  # family of C01-K18
             for i, n in enumerate(chain):
                 if isinstance(n, ast.arguments) and i > 0 and isinstance(chain[i - 1], ast.Lambda):
                     flags.add('in_lambda_args')
